@@ -7,7 +7,8 @@ META = {
     "level": "proof",
     "text": "split_idx and get_functions are verified against contracts for all N, P and rank by VCs generated from their AST on every run; "
             "the tiling statement follows by lemmas over those contracts; directory creation in get_functions is proved to be rank-0-only and "
-            "barrier-separated. Stage completion, row counts and row alignment of the four main() functions are bounded (forked ranks, P up to 16) "
+            "barrier-separated; structural obligations on the four stage main() functions: every collective is reached under rank-invariant control and every file write is "
+            "either executed by rank 0 only or goes to a file whose name contains the rank. Stage completion, row counts and row alignment of the four main() functions are bounded (forked ranks, P up to 16) "
             "and reported apart from the proof counts.",
     "note": "Trusted: pyvc executor and its models of Python/numpy primitives (cross-checked by runtime sweeps on the same snapshot), z3/cvc5, "
             "the SPMD taint rule, MPI and shell semantics (A-mpi, A-shell). Bounded parts never count as discharged obligations.",
@@ -153,6 +154,7 @@ def check(run):
         raise RuntimeError("canary verified: the engine is vacuous on get_functions")
     r2 = bounded_search_gf(run, tier)
     report_unproved(run, failed2, bool(r2["failures"]), "get_functions")
+    sfailed = D.structural_spmd(run, ["fitting/test_all.py", "fitting/test_all_Fisher.py", "fitting/match.py", "fitting/combine_DL.py"], "fitting")
     # --- directory protocol of the Likelihood constructor (rely/guarantee: other ranks may create the
     #     directory at any time) -- replayed on the real constructor
     r3 = run.harness("rt_c14.py", {"mode": "mkdir_race"})
@@ -164,6 +166,10 @@ def check(run):
                       {"harness": "rt_c14.py", "payload": {"mode": "mkdir_race"}})
     # --- stages on the stand-in
     stage_rows_check(run, tier)
+    if sfailed and not run.violations:
+        fq, desc, line = sfailed[0]
+        run.violation("spmd:%s:%s" % (fq.split("::")[1], desc.split(" at line")[0]), "%s: structural SPMD obligation no longer holds: %s (%d failed)" % (fq, desc, len(sfailed)),
+                      {"obligation": desc, "function": fq, "analysis": "pyvc/spmd.py collective_alignment / io_ownership"}, no_input=True)
     expl = ("Deductive: split_idx and get_functions verified against their contracts for all N, P, rank (unbounded), plus the "
             "tiling lemmas over the contracts and the rank-0-only/barrier protocol of get_functions' directory creation. "
             "Bounded (not counted as proved): runtime contract sweep of both functions, the constructor race replay, and the four "
